@@ -68,3 +68,38 @@ pub fn trace_merge(depth: u64, is_main: bool, draw_idx: i64, log_size: f64) {
 pub fn take_merge_trace() -> Vec<(u64, bool, i64, f64)> {
     MERGE_TRACE.with(|t| std::mem::take(&mut *t.borrow_mut()))
 }
+
+pub use crate::transform::{
+    Transformation, VerifDiagMassMatrix as DiagMassMatrix, VerifLowRankMassMatrix as LowRankMassMatrix,
+};
+
+/// A diagonal transformation with explicit scales and mean (`DiagMassMatrix::set_transform`).
+pub fn new_diag_transform<M: crate::Math>(math: &mut M, stds: &[f64], mean: &[f64]) -> DiagMassMatrix<M> {
+    let mut t = DiagMassMatrix::new(math, true);
+    let mut s = math.new_array();
+    math.read_from_slice(&mut s, stds);
+    let mut m = math.new_array();
+    math.read_from_slice(&mut m, mean);
+    t.set_transform(math, &s, &m);
+    t
+}
+
+/// A low-rank transformation with explicit parameters (`LowRankMassMatrix::update`);
+/// `vecs` holds the `vals.len()` eigenvectors one after the other (column major).
+pub fn new_lowrank_transform<M: crate::Math>(
+    math: &mut M,
+    settings: crate::LowRankSettings,
+    stds: &[f64],
+    mean: &[f64],
+    vals: &[f64],
+    vecs: &[f64],
+    mu: &[f64],
+) -> LowRankMassMatrix<M> {
+    let n = stds.len();
+    let k = vals.len();
+    let mut t = LowRankMassMatrix::new(math, settings);
+    let col = |x: &[f64]| faer::Col::<f64>::from_fn(x.len(), |i| x[i]);
+    let mat = faer::Mat::<f64>::from_fn(n, k, |i, j| vecs[j * n + i]);
+    t.update(math, col(stds), col(mean), col(vals), mat, col(mu));
+    t
+}
